@@ -479,9 +479,50 @@ class _SysShim:
 _real_open = open
 
 
+SIMPKG = 'verif_simpkg'
+SIMPKG_DIR = VROOT + 'site/' + SIMPKG
+
+
+class SimPackageFinder:
+    """a Python package that lives on the simulated disk: importable (an empty module), its data files are the text files of the
+    current simulated process's disk.  What FromPackageLoader / pkgutil.get_data() meet for a grammar library shipped as a package.
+    Whether the package has been imported yet is state of the *process*: a new lifetime may start without it in sys.modules."""
+
+    def __init__(self, facade):
+        self.facade = facade
+        self.n_imports = 0
+
+    def find_spec(self, fullname, path=None, target=None):
+        if fullname == SIMPKG:
+            from importlib.machinery import ModuleSpec
+            return ModuleSpec(fullname, self, origin=SIMPKG_DIR + '/__init__.py', is_package=True)
+        return None
+
+    def create_module(self, spec):
+        return None
+
+    def exec_module(self, module):
+        module.__file__ = SIMPKG_DIR + '/__init__.py'
+        self.n_imports += 1
+
+    def get_data(self, path):
+        t = self.facade.proc().disk.texts.get(path)
+        if t is None:
+            raise FileNotFoundError(path)
+        return t.encode('utf8')
+
+
+def forget_simpkg():
+    """the simulated package is not imported (yet) in the process that starts now"""
+    sys.modules.pop(SIMPKG, None)
+
+
 def install(facade):
     """put the simulated FS behind lark's seams; returns an uninstall function"""
     import lark.lark as LL, lark.load_grammar as LG
+    finder = SimPackageFinder(facade)
+    sys.meta_path.insert(0, finder)
+    forget_simpkg()
 
     def sim_open(name, mode='r', *a, **kw):
         # plain open() as lark.lark / lark.load_grammar see it: everything under VROOT is on the simulated disk -- grammar sources as
@@ -511,6 +552,9 @@ def install(facade):
     LL.open = sim_open
 
     def uninstall():
+        if finder in sys.meta_path:
+            sys.meta_path.remove(finder)
+        forget_simpkg()
         LL.FS = saved[0]
         if saved[1] is None:
             LG.__dict__.pop('open', None)
